@@ -346,11 +346,12 @@ func run(spec *Spec, tier, replay string, keep, buildOnly bool) int {
 	// validate new violations by replay, then report
 	exit := 0
 	reported := 0
-	os.MkdirAll(filepath.Join(verifDir, "replays", spec.ID), 0o755)
+	outDir := envOr("VERIF_OUT_DIR", verifDir)
+	os.MkdirAll(filepath.Join(outDir, "replays", spec.ID), 0o755)
 	var unconfirmed []string
 	for i, v := range fresh {
 		h := sha1.Sum([]byte(v.Key))
-		rp := filepath.Join(verifDir, "replays", spec.ID, fmt.Sprintf("%x.json", h[:6]))
+		rp := filepath.Join(outDir, "replays", spec.ID, fmt.Sprintf("%x.json", h[:6]))
 		b, _ := json.MarshalIndent(map[string]any{"property": spec.ID, "key": v.Key, "desc": v.Desc, "replay": v.Replay,
 			"replay_cmd": fmt.Sprintf("bin/check %s --replay %s", spec.ID, rp)}, "", " ")
 		os.WriteFile(rp, b, 0o644)
@@ -414,8 +415,8 @@ func run(spec *Spec, tier, replay string, keep, buildOnly bool) int {
 		"violations":  reported,
 	}
 	eb, _ := json.MarshalIndent(ev, "", " ")
-	os.MkdirAll(filepath.Join(verifDir, "evidence"), 0o755)
-	if err := os.WriteFile(filepath.Join(verifDir, "evidence", spec.ID+".json"), eb, 0o644); err != nil {
+	os.MkdirAll(filepath.Join(outDir, "evidence"), 0o755)
+	if err := os.WriteFile(filepath.Join(outDir, "evidence", spec.ID+".json"), eb, 0o644); err != nil {
 		fatal("%v", err)
 	}
 	fmt.Printf("%s tier=%s evaluations=%d distinct=%d states=%d transitions=%d exhaustive=%v known=%d violations=%d wall=%.1fs\n",
